@@ -9,18 +9,18 @@ BASELINE_OFF = ("cd /repo && cargo nextest run --workspace --no-fail-fast --test
 
 # property id -> (engine, technique, level text, level note, design ref)
 CHECKS = {
-    "C16": ("codec", "differential runtime monitor vs reference varint codec + octets; complete enumeration of 1-/2-byte encodings and values < 2^16; stream-id arithmetic oracle with panic catcher",
+    "C16": ("codec", "differential runtime monitor vs reference varint codec + octets; complete enumeration of 1-/2-byte encodings and values < 2^16; stream-id arithmetic oracle; h3's decoder runs under a panic catcher (a panic is a violation wherever it is raised)",
             "Every decode/encode/constructor/stream-id operation executed is compared with an independent RFC 9000 implementation (and octets); the small domains named by the property's quantifier are enumerated completely, the rest sampled. Held-on-observed, not proved.",
             "Trusts refimpl/varint.rs and octets 0.3.7 (cross-checked against each other on every case); 64-bit usize.",
             "DESIGN.md §4 C16"),
 }
 
 CHECKS.update({
-    "C15": ("codec", "differential runtime monitor (via cfg-guarded re-export) vs octets' strict RFC 7541 Huffman decoder and a 128-bit prefixed-integer reference; complete enumeration of short strings / Huffman payloads, padding and EOS mutations",
+    "C15": ("codec", "differential runtime monitor (via cfg-guarded re-export) vs octets' strict RFC 7541 Huffman decoder and a 128-bit prefixed-integer reference; complete enumeration of short strings / Huffman payloads, padding and EOS mutations (EOS inside, closing the string, followed by whole bytes of ones)",
             "Every string/integer encode and decode executed is compared with independent implementations; accept/reject and output must agree. Short domains are enumerated completely (strings <= 2 B, H=1 payloads <= 2 B quick / <= 3 B thorough), the rest generated; every integer is also decoded from a buffer cut in two at every position, every string at a random one. Held-on-observed.",
             "Trusts octets 0.3.7 Huffman tables and refimpl/qpack.rs integer codec; implementation limits above 2^62 / >= 10 continuation bytes are don't-care; two known findings (overlong padding, EOS at end) are listed in known_findings.json.",
             "DESIGN.md §4 C15"),
-    "C18": ("codec", "differential runtime monitor: Datagram encode drained under PRNG-chosen Buf consumption patterns vs ref_varint(S/4)||P; decode vs reference incl. range/truncation errors; complete enumeration k < 2^16 and byte strings <= 2/3 B",
+    "C18": ("codec", "differential runtime monitor: Datagram encode drained under PRNG-chosen Buf consumption patterns (chunk/advance, copy_to_slice, copy_to_bytes whole and in parts, vectored, mixed) vs ref_varint(S/4)||P; decode vs reference incl. range/truncation errors; complete enumeration k < 2^16 and byte strings <= 2/3 B",
             "Every encoded datagram observed byte-for-byte under chunk/advance/copy patterns, every decode compared with the reference; complete over the small domains the quantifier names, sampled elsewhere. Held-on-observed.",
             "Trusts refimpl/varint.rs; only client-initiated bidirectional ids are passed to Datagram::new (its documented domain).",
             "DESIGN.md §4 C18"),
@@ -53,12 +53,12 @@ CHECKS.update({
 
 CHECKS.update({
     "C10": ("simquic+sched", "size-oracle runtime monitor: a raw peer sends/advertises exact RFC 9114 §4.2.2 sizes (reference encoder) around every limit; accept/refuse decisions, 431 behaviour and the sizes of HEADERS frames h3 writes (reference decoder) are compared with the oracle",
-            "The grid limits x (L-2..L+2) x field counts x {request, response, trailers} x {receive, send} x roles x {SETTINGS applied, applied without naming a limit, never delivered, arriving between stream creation and the send} x {whole, split stream} is run plus random sizes; every decision must equal s <= L and no oversized HEADERS may reach the wire. Held-on-observed.",
+            "The grid limits x (L-2..L+2) x field counts x {request, response, trailers} x {receive, send} x roles x {SETTINGS applied, applied without naming a limit, never delivered, arriving between stream creation and the send} x {whole, split stream} is run plus random sizes; a third of the sections carry a value that Huffman coding lengthens (encoded block longer than the RFC size and than the limit while the section is within it); a SendRequest handle (or a clone made before / after) is used for requests before the peer's SETTINGS arrive and for the request under test afterwards; every decision must equal s <= L and no oversized HEADERS may reach the wire. Held-on-observed.",
             "Trusts refimpl/qpack.rs for sizes; SETTINGS timing made deterministic by two phases; sizes above ~70 KB not constructed.",
             "DESIGN.md §4 C10"),
     "C12": ("simquic+sched", "three-valued reference-predicate runtime monitor (MUST_REJECT / MUST_ACCEPT / DONT_CARE) over generated field lists, checked against h3's header validation directly and end to end through a raw peer; wire-order monitor for sent HEADERS",
-            "10^5 (quick) field lists with single and combined defects (bad value bytes at either edge, in the middle or alone) go through Header::try_from/into_*_parts, thousands more are injected end to end (outcome must be StreamError H3_MESSAGE_ERROR without connection error, or delivery with equal content), and the HEADERS frames of generated messages are decoded by the reference to check pseudo-field order/uniqueness/values. Held-on-observed.",
-            "Trusts the predicate in props/c12.rs (RFC latitude is DONT_CARE) and the reference QPACK codec.",
+            "10^5 (quick) field lists with single and combined defects (bad value bytes at either edge, in the middle or alone) go through Header::try_from/into_*_parts, thousands more are injected end to end (outcome must be StreamError H3_MESSAGE_ERROR without connection error, or delivery with equal content), and the HEADERS frames of generated messages - including every form of request target the http crate can express (asterisk-form, origin-form with Host, absolute with and without path or query) - are decoded by the reference to check pseudo-field order/uniqueness/values. Held-on-observed.",
+            "Trusts the predicate in props/c12.rs (RFC latitude is DONT_CARE) and the reference QPACK codec; a :scheme h3 fills in for a target that names none is not judged.",
             "DESIGN.md §4 C12"),
     "C13": ("simquic+sched", "complete enumeration of builder configurations against a raw peer with reference parsing of the emitted SETTINGS; reference SETTINGS model vs applied values observed through public getters / HeaderTooBig for received payloads (permutations, duplicates, reserved ids, varint forms, truncations)",
             "All 2024 builder configurations are built, the server ones with the builder methods called as listed and in two shuffled orders (no panic, one well-formed SETTINGS frame, exact values, grease iff on); thousands of received payloads (up to 55 entries, hundreds of bytes, delivered in pieces) are judged by the reference model and the applied values read back; defaults checked before SETTINGS arrive. Held-on-observed; the configuration space is covered completely.",
@@ -71,14 +71,14 @@ CHECKS.update({
 })
 
 CHECKS.update({
-    "C04": ("simquic+sched", "reference control/uni-stream automaton + effect-history runtime monitor: a raw peer plays unidirectional stream scripts (types, varint forms, control frame sequences, FIN/RESET points) against the real endpoint under stream-credit shortage, back-pressure and a stalled grease stream; close code, driver result and GOAWAY effects compared",
+    "C04": ("simquic+sched", "reference control/uni-stream automaton + effect-history runtime monitor: a raw peer plays unidirectional stream scripts (types, varint forms, control frame sequences, FIN/RESET points) against the real endpoint under stream-credit shortage, back-pressure, a stalled grease stream and a peer that sends STOP_SENDING on the streams h3 itself opened (control, QPACK, grease - the latter being what RFC 9114 6.2.3 tells a peer to do); close code, driver result and GOAWAY effects compared",
             "All control frame sequences up to length 3 x endings (open, FIN, RESET, FIN inside a frame) x roles (servers also with a request in progress, which forbids stopping at GOAWAY) are played completely, plus sampled multi-stream scripts, GOAWAY effect traces and credit/back-pressure modes; the observed connection error must be one some processing order can raise first (or none), and GOAWAY effects must appear exactly when sent. Held-on-observed.",
-            "Trusts the automaton in props/c04.rs; overlapping rules accept any applicable code; push streams, CANCEL_PUSH to a client and QPACK stream closure are don't-care; a server whose accept() returned None legitimately stops processing.",
+            "Trusts the automaton in props/c04.rs; overlapping rules accept any applicable code; push streams, CANCEL_PUSH to a client and QPACK stream closure are don't-care; a server whose accept() returned None legitimately stops processing; when the peer stops h3's control or QPACK stream, H3_CLOSED_CRITICAL_STREAM is accepted (never required); stopping the grease stream must change nothing.",
             "DESIGN.md §4 C04"),
 })
 
 CHECKS.update({
-    "C06": ("simquic+sched", "panic catcher around every poll + quiescence-based hang oracle over adversarial peer scripts (bytecode shared with the fuzz target): faults injected at every step index of every scenario skeleton, grammar- and byte-level mutations, random scripts, validly encoded but field-level hostile sections; both roles, whole and split streams; spin detector (busy loop inside one poll), step cap as bounded-progress verdict; thorough tier adds a libFuzzer+ASan stage (target peer_script) and Miri/ASan lite runs",
+    "C06": ("simquic+sched", "panic catcher around every poll + quiescence-based hang oracle over adversarial peer scripts (bytecode shared with the fuzz target): faults injected at every step index of every scenario skeleton, grammar- and byte-level mutations, random scripts, validly encoded but field-level hostile sections, STOP_SENDING on the streams h3 itself opened, the connection closed / timed out / without stream credit before build() is first polled, the idle timeout at a PRNG-chosen moment; both roles, whole and split streams; spin detector (busy loop inside one poll), step cap as bounded-progress verdict; thorough tier adds a libFuzzer+ASan stage (target peer_script) and Miri/ASan lite runs",
             "Tens of thousands of hostile scripts per run; every poll of every h3 future runs under catch_unwind with overflow checks and debug assertions on; at quiescence no call may wait on a stream the peer already finished/reset/stopped, and after the peer's connection close no h3 future may be pending. FIN/RESET/STOP_SENDING/close are injected at every step index of all 192 skeletons (complete). Held-on-observed.",
             "Trusts the simulator's quiescence detection and the applications of sim/apps.rs as 'documented call pattern'.",
             "DESIGN.md §4 C06"),
@@ -101,13 +101,13 @@ CHECKS.update({
             "Trusts the reference parser and the simulator's event times; streams the application never pulled carry no obligation.",
             "DESIGN.md §4 C08"),
     "C09": ("simquic+sched", "handle-liveness history checker with quiescence-based bounded-progress oracle: endings alphabet^k x GOAWAY position enumerated, the harness owns and logs every handle drop; accept() returning None is checked against live handles, accept() pending at quiescence against 'GOAWAY delivered and all handles gone'",
-            "All histories of <= 2 (quick) / <= 3 (thorough) requests over the 8 endings x every GOAWAY position are run (3 schedules each) plus sampled longer ones, with both accept APIs, shuffled release order, the server's own shutdown, a repeated GOAWAY, handles kept after finish(), and worker-pool bursts of up to 71 requests in progress at once whose endings all fall between two polls of accept(). Safety and bounded progress are decided on the totally ordered event log and at executor quiescence, not on wall-clock. Held-on-observed.",
+            "All histories of <= 2 (quick) / <= 3 (thorough) requests over the 8 endings x every GOAWAY position are run (3 schedules each) plus sampled longer ones, with both accept APIs, shuffled release order, the server's own shutdown, a repeated GOAWAY, peer unidirectional streams opened ahead of the control stream (silent, QPACK, type arriving later), handles kept after finish(), and worker-pool bursts of up to 71 requests in progress at once whose endings all fall between two polls of accept(). Safety and bounded progress are decided on the totally ordered event log and at executor quiescence, not on wall-clock. Held-on-observed.",
             "Trusts the simulator's quiescence detection; QPACK failures excluded (connection errors).",
             "DESIGN.md §4 C09"),
 })
 
 CHECKS.update({
-    "C17": ("quinnrig", "byte-conservation / identifier / error-mapping runtime monitor over real Quinn loopback connections: the h3_quinn adapter is driven through the h3::quic traits against a raw quinn peer with flow-control windows swept from 1 byte to 1 MiB (arbitrary partial writes), premature second writes, an id-query state matrix incl. pending and abandoned reads, peer close/reset/stop/timeout with code sets; unframed writes (poll_send) for conservation and error classes, and an unframed write behind a frame that send_data accepted but has not finished (refused, or strictly behind it - never inside); h3's BufRecvStream on top of the adapter (look-ahead poll_read, take_chunk, poll_data, futures/tokio AsyncRead, split) incl. over a UDP relay that loses or swaps datagrams; AddressSanitizer build in the thorough tier",
+    "C17": ("quinnrig", "byte-conservation / identifier / error-mapping runtime monitor over real Quinn loopback connections: the h3_quinn adapter is driven through the h3::quic traits against a raw quinn peer with flow-control windows swept from 1 byte to 1 MiB (arbitrary partial writes), premature second writes, an id-query state matrix incl. pending and abandoned reads, peer close/reset/stop/timeout with code sets, each cause also observed by opening streams of both kinds through the connection, the cloneable opener and a clone of it; unframed writes (poll_send) for conservation and error classes, and an unframed write behind a frame that send_data accepted but has not finished (refused, or strictly behind it - never inside); h3's BufRecvStream on top of the adapter (look-ahead poll_read, take_chunk, poll_data, futures/tokio AsyncRead, split) incl. over a UDP relay that loses or swaps datagrams; AddressSanitizer build in the thorough tier",
             "66 (quick) / ~3000 (thorough) real connections; the raw peer's received byte string must equal the reference-encoded frames of every accepted send_data exactly once and in order, premature writes must be refused, send_id/recv_id must equal Quinn's id in all 14 read/write states without panicking, and peer conditions must map to the right h3 error class with the code preserved. Wall-clock is a watchdog only (inconclusive). Held-on-observed.",
             "Real sockets: evaluation counts vary slightly between runs; scenarios hit by Quinn/loopback trouble are discarded (inconclusive above 2 %); trusts quinn 0.11's own ids and the reference frame encoder.",
             "DESIGN.md §4 C17"),
@@ -167,7 +167,7 @@ def main():
             {"name": "codec", "path": "harness/src/props", "serves_properties": ["C11", "C15", "C16", "C18", "C20"],
              "kind_free_text": "differential driver: h3's pure codec functions vs independent reference implementations (refimpl/) over enumerated + generated inputs"},
             {"name": "simquic+sched", "path": "harness/src/sim", "serves_properties": ["C01", "C02", "C03", "C04", "C06", "C07", "C08", "C09", "C10", "C12", "C13", "C14", "C19"],
-             "kind_free_text": "simulated QUIC transport implementing h3::quic traits + deterministic single-threaded executor; PRNG-driven chunking, back-pressure, credit and task order; monitors at the API and wire boundary"},
+             "kind_free_text": "simulated QUIC transport implementing h3::quic traits + deterministic single-threaded executor; PRNG-driven chunking, back-pressure, credit and task order; received data handed to h3 as one contiguous buffer or as a rope of non-contiguous segments; monitors at the API and wire boundary"},
             {"name": "racerig", "path": "harness/src/racerig", "serves_properties": ["C05"],
              "kind_free_text": "real OS threads parked at cfg-guarded pre-emption hooks; enumerates all segment orderings; free-running under TSan/Miri"},
             {"name": "quinnrig", "path": "harness/src/quinnrig", "serves_properties": ["C17"],
